@@ -9,10 +9,12 @@ DOC = "<r>7</r>"
 STRS = ["", " ", "  x ", "\t\n", "abc", "äö", "\U0001D4B3z", "é", "12", " 12 ", "1e3", "+1", ".5", "5.", "Infinity", "-0",
         "NaN", "-", "1 2", "true", "-12.50", "0x10", " " + "7" + " ",
         # Unicode White_Space that is NOT XML white space (S is #x20 | #x9 | #xD | #xA only): ordinary characters to XPath
-        "10\u00a0000", "\u3000x\u3000", "\u2003a b", "a\u0085b", "\u00a07\u00a0", "x\u2028y", "\u00a0"]
+        "10\u00a0000", "\u3000x\u3000", "\u2003a b", "a\u0085b", "\u00a07\u00a0", "x\u2028y", "\u00a0",
+        # what a host language's number parser accepts beyond the Number production, and digits of other scripts
+        "inf", "infinity", "nan", "1E2", "1_000", "\u0661\u0662\u0663", "\uff11\uff12\uff10", "\u00b2", "\u00bd", "+.5", "1.e1"]
 NUMS = ["0 div 0", "0", "-0", "1 div 0", "-1 div 0", "0.5", "-0.5", "1.5", "-1.5", "2.5", "-2.5", "1", "3", "-3",
         "9007199254740992", "1000000000000000000000", "0.0009765625", "-7.25", "0.1", "123456789.125",
-        "0.49999999999999994", "100", "0.000001"]
+        "0.49999999999999994", "100", "0.000001", "-0.49999999999999994", "4503599627370497", "9007199254740991", "4503599627370495.5"]
 BOOLS = ["true()", "false()"]
 FUNCS = ["last", "position", "count", "local-name", "namespace-uri", "name", "string", "concat", "starts-with", "contains",
          "substring-before", "substring-after", "substring", "string-length", "normalize-space", "translate", "boolean", "not",
